@@ -144,6 +144,8 @@ def run(chk):
     run_h7(chk, cf.PROGRAM[0] or cf.Program())
     from . import clones as _clones
     _clones.rule_signature_siblings(chk, 'N9')
+    from . import twins as _twins
+    _twins.rule_case_sibling_args(chk, cf.PROGRAM[0] or cf.Program(), 'X8', floor=5, tus=[t for t in (cf.PROGRAM[0] or cf.Program()).tus() if 'hmac_ipad_opad' in t or 'ipad_opad' in t])
     from . import ivcover
     ivcover.run(chk, cf.PROGRAM[0] or cf.Program(), 'H8')
 
